@@ -47,10 +47,23 @@ var c19Docs = [][]c19Pair{
 	{{"c", 3}, {"", 3}, {"b", 0}},
 }
 
+// Key realisation: the specification's keys are abstract; the binding chooses the concrete string that stands
+// for each. In the "escaped" form every key carries a suffix of characters that JSON must escape or that Go and JSON
+// quote differently (control characters, DEL, quote, backslash, angle bracket, U+2028, a non-ASCII letter, an
+// unassigned-plane rune), so the encode/decode operations of the map are exercised on keys that need escaping.
+// ck: abstract -> concrete, ak: concrete -> abstract.
+var c19Suffix = ""
+
+const c19EscapedSuffix = "\x01\a\v\x7f\"\\<&\u2028\u00e9\U000e0001"
+
+func ck(k string) string { return k + c19Suffix }
+func ak(k string) string { return strings.TrimSuffix(k, c19Suffix) }
+
 func c19DocText(pairs []c19Pair) string {
 	parts := make([]string, 0, len(pairs))
 	for _, p := range pairs {
-		parts = append(parts, fmt.Sprintf("%q: %d", p.K, p.V))
+		kj, _ := json.Marshal(ck(p.K))
+		parts = append(parts, fmt.Sprintf("%s: %d", kj, p.V))
 	}
 	return "{" + strings.Join(parts, ", ") + "}"
 }
@@ -77,19 +90,19 @@ func c19Apply(m *verifapi.IntMap, op c19Op) (res *verifapi.IntMap, failure strin
 	}()
 	switch op.Op {
 	case "set":
-		m.Set(op.K, op.V)
+		m.Set(ck(op.K), op.V)
 	case "remove":
-		m.Remove(op.K)
+		m.Remove(ck(op.K))
 	case "sort":
 		switch op.By {
 		case "asc":
-			m.Sort(func(i, j string) bool { return c19RankOf(i) < c19RankOf(j) })
+			m.Sort(func(i, j string) bool { return c19RankOf(ak(i)) < c19RankOf(ak(j)) })
 		case "desc":
-			m.Sort(func(i, j string) bool { return c19RankOf(i) > c19RankOf(j) })
+			m.Sort(func(i, j string) bool { return c19RankOf(ak(i)) > c19RankOf(ak(j)) })
 		case "cfirst":
-			m.Sort(func(i, j string) bool { return i == "c" && j != "c" })
+			m.Sort(func(i, j string) bool { return ak(i) == "c" && ak(j) != "c" })
 		case "coarse":
-			m.Sort(func(i, j string) bool { return (c19RankOf(i)-100)%3 < (c19RankOf(j)-100)%3 })
+			m.Sort(func(i, j string) bool { return (c19RankOf(ak(i))-100)%3 < (c19RankOf(ak(j))-100)%3 })
 		}
 	case "unmarshal":
 		pairs := op.Pairs
@@ -114,7 +127,7 @@ func c19Apply(m *verifapi.IntMap, op c19Op) (res *verifapi.IntMap, failure strin
 	case "map":
 		before := c19Observe(m)
 		d := m.Map(func(k string, v int) int {
-			if k == op.K {
+			if ak(k) == op.K {
 				return 3 - v
 			}
 			return v
@@ -134,7 +147,7 @@ func c19Apply(m *verifapi.IntMap, op c19Op) (res *verifapi.IntMap, failure strin
 
 func c19Observe(m *verifapi.IntMap) []c19Pair {
 	out := []c19Pair{}
-	m.Iterate(func(k string, v int) { out = append(out, c19Pair{k, v}) })
+	m.Iterate(func(k string, v int) { out = append(out, c19Pair{ak(k), v}) })
 	return out
 }
 
@@ -183,11 +196,11 @@ func c19Compare(m *verifapi.IntMap, want []c19Pair, alphabet []string) (failure 
 	}
 	for _, k := range alphabet {
 		v, has := wantMap[k]
-		if m.Has(k) != has {
-			return fmt.Sprintf("has(%s): got %v", k, m.Has(k))
+		if m.Has(ck(k)) != has {
+			return fmt.Sprintf("has(%s): got %v", k, m.Has(ck(k)))
 		}
-		if m.Get(k) != v { // zero value for a missing key
-			return fmt.Sprintf("get(%s): got %v want %v", k, m.Get(k), v)
+		if m.Get(ck(k)) != v { // zero value for a missing key
+			return fmt.Sprintf("get(%s): got %v want %v", k, m.Get(ck(k)), v)
 		}
 	}
 	// MarshalJSON: a JSON object whose members are the pairs in order
@@ -210,7 +223,7 @@ func c19Compare(m *verifapi.IntMap, want []c19Pair, alphabet []string) (failure 
 		if err := dec.Decode(&v); err != nil {
 			return fmt.Sprintf("marshal: invalid JSON %q: %v", raw, err)
 		}
-		decoded = append(decoded, c19Pair{kt.(string), v})
+		decoded = append(decoded, c19Pair{ak(kt.(string)), v})
 	}
 	if _, err := dec.Token(); err != nil {
 		return fmt.Sprintf("marshal: invalid JSON %q: %v", raw, err)
@@ -293,7 +306,11 @@ func c19RunHistory(h c19Hist, alphabet []string) (int, string) {
 
 func c19Replay(args []string) int {
 	fs := flag.NewFlagSet("c19-replay", flag.ExitOnError)
+	keyform := fs.String("keyform", "plain", "plain | escaped: concrete realisation of the abstract keys")
 	_ = fs.Parse(args)
+	if *keyform == "escaped" {
+		c19Suffix = c19EscapedSuffix
+	}
 	in := bufio.NewReaderSize(os.Stdin, 1<<20)
 	out := bufio.NewWriter(os.Stdout)
 	defer out.Flush()
@@ -341,6 +358,11 @@ func c19Random(args []string) int {
 		keys[i] = fmt.Sprintf("k%02d", i)
 	}
 	for t := 0; t < *traces; t++ {
+		// every other history runs on keys that need JSON escaping (see ck/ak)
+		c19Suffix = ""
+		if t%2 == 1 {
+			c19Suffix = c19EscapedSuffix
+		}
 		m := verifapi.NewIntMap()
 		var shadow *verifapi.IntMap // receiver left behind by the last filter/map
 		var shadowObs []c19Pair
@@ -395,9 +417,9 @@ func c19Random(args []string) int {
 					// ... and nothing done to that receiver shows in the current map
 					before := c19Observe(m)
 					if rng.Intn(2) == 0 {
-						shadow.Sort(func(i, j string) bool { return c19RankOf(i) > c19RankOf(j) })
+						shadow.Sort(func(i, j string) bool { return c19RankOf(ak(i)) > c19RankOf(ak(j)) })
 					} else {
-						shadow.Set(keys[rng.Intn(len(keys))], 7)
+						shadow.Set(ck(keys[rng.Intn(len(keys))]), 7)
 					}
 					shadowObs = c19Observe(shadow)
 					if !c19PairsEqual(c19Observe(m), before) {
